@@ -36,6 +36,7 @@ var vfC11Ops = []vfC11Op{
 	{"sub(me obo alice)", "priv", "sub-me-obo"}, {"pub(grp obo alice)", "priv", "pub-grp-obo"},
 	{"note(me read)", "note", "me"}, {"note(grp kp)", "note", "grp"},
 	{"login(token from the last reply)", "login", "tok-last"}, {"login(basic carol needs validation)", "login", "basic-carol"},
+	{"login(basic erin, record expired)", "login", "basic-erin-expired"},
 	{"login(basic carol + response for an unknown credential method)", "login", "basic-carol-bogus"},
 	{"login(basic carol + wrong e-mail response)", "login", "basic-carol-wrongresp"},
 	{"sub(sys obo self, authlevel root)", "priv", "sub-sys-oboself"}, {"acc(new basic suspended, obo self, authlevel root)", "acc", "new-susp-oboself"},
@@ -73,6 +74,10 @@ func vfC11Setup() *vfC11World {
 			vsched.Fail("harness", "mint: "+err.Error())
 		}
 		return b
+	}
+	x.users["erin"] = w.vfMakeUser("erin", auth.LevelAuth, map[string]any{"fn": "erin"})
+	if _, err := store.Store.GetAuthHandler("basic").AddRecord(&auth.Rec{Uid: x.users["erin"].uid, AuthLevel: auth.LevelAuth, Lifetime: auth.Duration(3 * time.Second)}, []byte("erin:erin1234"), ""); err != nil {
+		vsched.Fail("harness", "basic record erin: "+err.Error())
 	}
 	x.tokens["tok-expired"] = mint(x.users["alice"], 3*time.Second, auth.FeatureValidated)
 	vsched.Advance(10 * time.Second)
@@ -144,6 +149,8 @@ func (x *vfC11World) request(op vfC11Op) string {
 			return `{"login":{"id":"$ID","scheme":"bogus","secret":"QUJD"}}`
 		case "basic-carol":
 			return fmt.Sprintf(`{"login":{"id":"$ID","scheme":"basic","secret":"%s"}}`, vfB64([]byte("carol:carol123")))
+		case "basic-erin-expired":
+			return fmt.Sprintf(`{"login":{"id":"$ID","scheme":"basic","secret":"%s"}}`, vfB64([]byte("erin:erin1234")))
 		case "basic-carol-bogus":
 			return fmt.Sprintf(`{"login":{"id":"$ID","scheme":"basic","secret":"%s","cred":[{"meth":"bogus","resp":"123456"}]}}`, vfB64([]byte("carol:carol123")))
 		case "basic-carol-wrongresp":
